@@ -18,6 +18,7 @@ type PropConfig struct {
 	Exclude     []string `json:"exclude,omitempty"`     // function keys excluded from the package sweep (with reason in notes)
 	OnlyTagged  bool     `json:"only_tagged,omitempty"` // count only clauses tagged with this property id
 	AlsoTags    []string `json:"also_tags,omitempty"`   // clauses tagged with these property ids count too (the property depends on them)
+	TaggedOnly  []string `json:"tagged_only_functions,omitempty"` // functions of which only the clauses tagged with this property id are claimed (their zero-annotation safety obligations are not all discharged)
 	Kinds       []string `json:"kinds,omitempty"`       // restrict to obligation kinds with these prefixes
 	Analyses    []AnalysisSpec `json:"analyses,omitempty"` // solver-free inventory analyses over the SSA call graph
 	Assumptions []string `json:"assumptions"`
@@ -194,7 +195,11 @@ func cmdCheck(args []string) int {
 			continue
 		}
 		var keep []*Obligation
+		taggedOnly := inList(pc.TaggedOnly, r.Fn)
 		for _, o := range r.Obls {
+			if taggedOnly && !o.Cover && !inList(o.Tags, id) {
+				continue
+			}
 			if !hasTag(o, id) {
 				also := false
 				for _, t := range pc.AlsoTags {
